@@ -59,6 +59,24 @@ def build(f, r):
                     dim._h5group.set_attr("unit", d[2])
             else:
                 dim = da.append_range_dimension([1.0, 2.0])
+                how = d[3] if len(d) > 3 else 0
+                if d[1] and how:
+                    # the same ticks (and unit) held by another array and reached through a dimension link: along a
+                    # vector (how = 1) or along the last axis of a matrix row (how = 2)
+                    tk = np.array([float(x) for x in d[1]])
+                    hname = "k%d_%d" % (i, len(da.dimensions))
+                    if how == 1:
+                        h = b.create_data_array(hname, "t", data=tk)
+                        h.append_set_dimension()
+                        dim.link_data_array(h, [-1])
+                    else:
+                        h = b.create_data_array(hname, "t", data=np.vstack([np.zeros(len(tk)), tk]))
+                        h.append_set_dimension()
+                        h.append_set_dimension()
+                        dim.link_data_array(h, [1, -1])
+                    if d[2] is not None:
+                        h._h5group.set_attr("unit", d[2])
+                    continue
                 if d[1]:
                     dim._h5group.write_data("ticks", [float(x) for x in d[1]])
                 else:
